@@ -15,7 +15,8 @@ THEOREMS = [P + t for t in (
     "two_hop_nodup", "second_components_spec",
     "two_hop_exact", "two_hop_total", "two_hop_counterexample", "two_hop_partial", "wf_build",
     "shortest_path_sound", "shortest_path_empty_iff_unreachable", "shortest_path_minimal", "shortest_path_total",
-    "hops_sound", "hops_minimal", "hops_empty_iff_none", "hops_total", "class_lookup_is_membership")]
+    "hops_sound", "hops_minimal", "hops_empty_iff_none", "hops_total", "hops_list_semantics", "hops_foreign_hop_empty",
+    "class_lookup_is_membership")]
 TRUSTED_BASE = [
     "gen/queryidioms.py: AST patterns of the three drop-list loops (which variable is appended), of the iterable of "
     "_drop_edges_not_of_type (live view / snapshot) and of the replacement test in get_nodes_on_path_with_hops",
@@ -32,7 +33,10 @@ ASSUMPTIONS = [
     "cut_off is a non-negative integer; relation, class and node id arguments are strings (None is rejected by the asserts)",
     "'loop-free' for path-with-hops is the documented sense of the code: no cycle in the subgraph induced by the path",
 ]
-RULE = ("case = (store with 1-3 graphs built through add_node/add_link in interleaved order, target graph, query); queries: "
+RULE = ("histories: several wrapper objects per graph id, query / mutate through another (or the same) wrapper / query again, "
+        "queries and mutations on other graphs in between; every answer against the model and the oracle on the store as it is now and "
+        "against a fresh wrapper; non-trivial history query = asked after a mutation with a non-empty answer or mixed relations.  "
+        "case = (store with 1-3 graphs built through add_node/add_link in interleaved order, target graph, query); queries: "
         "first-neighbour, two-hop, shortest path (with and without relation), path-with-hops (hop lists, cut-offs), derived helpers; "
         "non-trivial = the answer is non-empty or the queried node has incident edges of >= 2 relations; "
         "distinct by (canonical target view, query); thorough adds every graph on <= 4 nodes over 2 relations x 2 classes "
@@ -172,6 +176,12 @@ def make_case(rng, graphs):
     return {"graphs": ["g%d" % i for i in range(len(graphs))], "ops": ops, "target": 0}
 
 
+def foreign_ids(nodes, t):
+    """ids that are nodes of another graph of the store but not of graph t"""
+    mine = {i for i, _ in nodes[t]}
+    return sorted({i for k, ns in enumerate(nodes) if k != t for i, _ in ns} - mine)
+
+
 def gen_case(rng, max_nodes):
     fim = rng.random() < 0.35
     rels, clss = (FIM_REL, FIM_CLS) if fim else (ABS_REL, ABS_CLS)
@@ -181,7 +191,12 @@ def gen_case(rng, max_nodes):
     graphs = [gen_graph(rng, max_nodes, rels, clss, shape)]
     for _ in range(rng.choice([0, 1, 1, 2])):
         # noise graphs reuse the same node ids (other classes / relations), so a missing GraphID filter shows
-        graphs.append(gen_graph(rng, max_nodes, rels, clss, rng.choice(["sparse", "dense"]) if shape == "fim" else shape))
+        ng = gen_graph(rng, max_nodes, rels, clss, rng.choice(["sparse", "dense"]) if shape == "fim" else shape)
+        own = "o%d" % len(graphs)                    # an id that exists only in this other graph
+        ng[0].append((own, rng.choice(clss)))
+        if len(ng[0]) > 1:
+            ng[1].append((own, rng.choice(rels), ng[0][0][0]))
+        graphs.append(ng)
     case = make_case(rng, graphs)
     case["target"] = rng.randrange(len(graphs)) if rng.random() < 0.3 else 0
     case["alphabet"] = [rels, clss]
@@ -191,7 +206,41 @@ def gen_case(rng, max_nodes):
     return case
 
 
-def all_queries(view, rels, clss, rng=None, budget=None, hops_full=False):
+def special_hop_lists(view, a, z, ids, other_ids, rng=None):
+    """Hop *lists* (not sets): end nodes among the hops, repeated entries, the interior of an actual path in path order /
+    reversed / shuffled, ids that are not nodes of this graph (unknown, or nodes of another graph in the store)."""
+    out = [[a], [z], [a, z], [z, a], [a, a], [z, a, z]]
+    mids = [h for h in ids if h not in (a, z)]
+    pick = mids if rng is None else (rng.sample(mids, min(2, len(mids))))
+    for h in pick:
+        out += [[h, h], [h, a, h], [h, h, h]]
+    if len(mids) >= 2:
+        h, k = (mids[0], mids[-1]) if rng is None else rng.sample(mids, 2)
+        out += [[h, k, h], [k, h, k, h]]
+    paths = simple_paths(view, a, z)
+    if paths:
+        chosen = {tuple(min(paths, key=len)), tuple(max(paths, key=len))}
+        if rng is not None:
+            chosen.add(tuple(rng.choice(paths)))
+        for pth in sorted(chosen):
+            pth = list(pth)
+            inner = pth[1:-1]
+            out += [pth, pth[::-1]]
+            if inner:
+                sh = inner[1:] + inner[:1] if rng is None else rng.sample(inner, len(inner))
+                out += [inner, inner[::-1], sh, inner + inner[:1], inner + inner[::-1]]
+    foreign = ["nope"] + list(other_ids[:1])
+    for f in foreign:
+        out += [[f], [f, f]] + ([[mids[0], f], [f, mids[0]]] if mids else [[a, f]])
+    seen, res = set(), []
+    for hs in out:
+        if tuple(hs) not in seen:
+            seen.add(tuple(hs))
+            res.append(hs)
+    return res
+
+
+def all_queries(view, rels, clss, rng=None, budget=None, hops_full=False, other_ids=()):
     ids = [i for i, _ in view.nodes]
     R = list(rels) + ["zz"]
     C = list(clss) + ["Zz"]
@@ -215,6 +264,15 @@ def all_queries(view, rels, clss, rng=None, budget=None, hops_full=False):
                 if hops_full:
                     for c in ((0, 1) if len(ids) <= 3 else (2,)):
                         hops.append(["hops", a, z, hs, c])
+    hops2 = []
+    pairs = [(a, z) for a in ids for z in ids]
+    if budget is not None and len(pairs) > 8:
+        pairs = rng.sample(pairs, 8)
+    for a, z in pairs:
+        for hs in special_hop_lists(view, a, z, ids, list(other_ids), rng if budget is not None else None):
+            hops2.append(["hops", a, z, hs, 100])
+            if budget is not None and rng.random() < 0.2:
+                hops2.append(["hops", a, z, hs, rng.choice([0, 1, 2, 3])])
     hops.append(["hops", "nope", ids[0] if ids else "x", [], 100])
     if ids:
         hops.append(["hops", ids[0], "nope", [], 100])
@@ -231,9 +289,9 @@ def all_queries(view, rels, clss, rng=None, budget=None, hops_full=False):
         if c in ("Link", "NetworkService"):
             helpers.append(["linkcps", n])
     if budget is None:
-        return qs + two + sp + hops + helpers
+        return qs + two + sp + hops + hops2 + helpers
     out = []
-    for pool, share in ((qs, 0.15), (two, 0.25), (sp, 0.25), (hops, 0.25), (helpers, 0.10)):
+    for pool, share in ((qs, 0.12), (two, 0.22), (sp, 0.22), (hops, 0.17), (hops2, 0.17), (helpers, 0.10)):
         k = max(1, int(budget * share))
         if len(pool) <= k:
             out += pool
@@ -282,6 +340,7 @@ def exhaustive_cases(max_n=4, loops_n=3, rels=("r", "s"), clss=("A", "B")):
                     ops = []
                     for (i, c), (j, d) in zip(nodes, noise[0]):
                         ops += [[0, "n", i, c], [1, "n", j, d]]
+                    ops += [[1, "n", "o1", clss[0]], [1, "l", "o1", rels[0], "n0"]]
                     for (a, r, b), (a2, r2, b2) in zip(links, noise[1]):
                         ops += [[1, "l", a2, r2, b2], [0, "l", a, r, b]]
                     yield {"graphs": ["g0", "g1"], "ops": ops, "target": 0, "alphabet": [list(rels), list(clss)]}
@@ -450,7 +509,7 @@ def run_cases(ctx, res, cases, budget, tag, hops_full=False, judge=False):
         t = case["target"]
         view = View(nodes[t], links[t])
         rels, clss = case["alphabet"]
-        qs = all_queries(view, rels, clss, rng, budget, hops_full)
+        qs = all_queries(view, rels, clss, rng, budget, hops_full, foreign_ids(nodes, t))
         gs = build_impl(case)
         impl = [impl_query(gs[t], q) for q in qs]
         lines.append(json.dumps(["g", [list(x) for x in nodes[t]], [list(x) for x in links[t]], [lean_query(q) for q in qs] + [["wf"]]]))
@@ -513,6 +572,8 @@ def correspondence(ctx, res):
     n = ctx.scale(110, 900)
     cases = [gen_case(rng, rng.choice([2, 3, 4, 5, 6, 7])) for _ in range(n)]
     run_cases(ctx, res, cases, ctx.scale(110, 200), "random")
+    hr = ctx.sub_rng("corr-history")
+    run_histories(ctx, res, corner_histories() + [gen_history(hr, hr.choice([2, 3, 4, 5])) for _ in range(ctx.scale(120, 1500))])
     if ctx.thorough:
         run_cases(ctx, res, list(exhaustive_cases()), None, "exhaustive", hops_full=True, judge=True)
         _STATE["exhaustive_judged"] = True
@@ -543,11 +604,11 @@ def classify_extra_pair(view, n, q, m, k):
     return "unexplained"
 
 
-def check_query(view, case, q, rep, res):
+def check_query(view, case, q, rep, res, cc=None):
     """Evaluate the property on one answer of the implementation.  Only queries whose nodes exist are judged."""
     op = q[0]
-    cc = {"graphs": case["graphs"], "ops": case["ops"], "target": case["target"], "query": q,
-          "backend": case.get("backend", "shared")}
+    cc = cc or {"graphs": case["graphs"], "ops": case["ops"], "target": case["target"], "query": q,
+                "backend": case.get("backend", "shared")}
 
     def bad(sig, what, **kw):
         res.violation("C06:" + sig, what, cc, **kw)
@@ -661,6 +722,310 @@ def check_query(view, case, q, rep, res):
             bad("%s:%s" % (op, "extra" if extra else "missing"), "derived helper result differs from its definition", expected=exp, observed=sorted(rep[1]))
 
 
+# --------------------------------------------------------------------------
+# query histories: several wrapper objects of the same graph id, mutations between queries, other graphs in between.
+# Contract: a query answers from the store as it is now - whatever wrapper asks, whatever wrapper mutated.
+
+
+class MView:
+    """mutable harness view of one graph id"""
+
+    def __init__(self):
+        self.nodes = []          # [(id, cls)]
+        self.edges = []          # [(a, rel, b)] one per unordered pair, insertion order
+
+    def add_node(self, i, c):
+        self.nodes.append((i, c))
+
+    def add_link(self, a, r, b):
+        for k, (x, _, y) in enumerate(self.edges):
+            if {x, y} == {a, b}:
+                self.edges[k] = (x, r, y)
+                return
+        self.edges.append((a, r, b))
+
+    def del_node(self, i):
+        self.nodes = [n for n in self.nodes if n[0] != i]
+        self.edges = [e for e in self.edges if i not in (e[0], e[2])]
+
+    def ids(self):
+        return [i for i, _ in self.nodes]
+
+    def view(self):
+        return View(self.nodes, self.edges)
+
+
+def rand_query(mv, rels, clss, rng, foreign):
+    ids = mv.ids()
+    n = lambda: rng.choice(ids) if ids and rng.random() < 0.93 else "nope"
+    R, C = list(rels), list(clss)
+    k = rng.random()
+    if k < 0.22:
+        return ["fn", n(), rng.choice(R), rng.choice(C)]
+    if k < 0.55:
+        return ["two", n(), rng.choice(R), rng.choice(C), rng.choice(R), rng.choice(C)]
+    if k < 0.75:
+        return ["sp", n(), n(), rng.choice([None] + R)]
+    if k < 0.95:
+        a, z = n(), n()
+        hs = []
+        if a in ids and z in ids and rng.random() < 0.7:
+            hs = rng.choice(special_hop_lists(mv.view(), a, z, ids, list(foreign), rng))
+        return ["hops", a, z, hs, rng.choice([100, 100, 100, 2, 3])]
+    return ["parent", rng.choice(ids) if ids else "nope", rng.choice(R[:2]), rng.choice(C)] if ids else ["fn", "nope", R[0], C[0]]
+
+
+def rand_mutation(mv, w, rels, clss, rng, fresh_id, near=None):
+    """A mutation step through wrapper w on the graph viewed by mv; `near`: prefer to touch this node's neighbourhood."""
+    ids = mv.ids()
+    k = rng.random()
+    if k < 0.2 or len(ids) < 2:
+        return ["n", w, fresh_id, rng.choice(clss)]
+    if k < 0.85:
+        a = near if near in ids and rng.random() < 0.7 else rng.choice(ids)
+        if mv.edges and rng.random() < 0.35:
+            cand = [e for e in mv.edges if a in (e[0], e[2])] or mv.edges
+            x, r, y = rng.choice(cand)                       # re-add an existing link with another relation
+            return ["l", w, y, rng.choice([q for q in rels if q != r] or rels), x]
+        b = rng.choice(ids)
+        if a == b and rng.random() < 0.8:
+            b = rng.choice([i for i in ids if i != a])
+        return ["l", w, a, rng.choice(rels), b]
+    cand = [i for i in ids if i != near] or ids
+    return ["d", w, rng.choice(cand)] if len(ids) > 2 else ["n", w, fresh_id, rng.choice(clss)]
+
+
+def apply_step(mvs, wrappers, st):
+    mv = mvs[wrappers[st[1]]]
+    if st[0] == "n":
+        mv.add_node(st[2], st[3])
+    elif st[0] == "l":
+        mv.add_link(st[2], st[3], st[4])
+    elif st[0] == "d":
+        mv.del_node(st[2])
+
+
+def gen_history(rng, max_nodes):
+    fim = rng.random() < 0.3
+    rels, clss = (FIM_REL, FIM_CLS) if fim else (ABS_REL[:2], ABS_CLS[:2]) if rng.random() < 0.6 else (ABS_REL, ABS_CLS)
+    ng = rng.choice([1, 2, 2, 3])
+    graphs = ["h%d" % i for i in range(ng)]
+    # two or three wrapper objects for graph 0, one or two for the others
+    wrappers = [0, 0] + ([0] if rng.random() < 0.3 else [])
+    for g in range(1, ng):
+        wrappers += [g] * rng.choice([1, 2])
+    wof = {g: [w for w, x in enumerate(wrappers) if x == g] for g in range(ng)}
+    mvs = [MView() for _ in graphs]
+    steps = []
+    counter = [0]
+
+    def fresh_id():
+        counter[0] += 1
+        return "m%d" % counter[0]
+
+    def push(st):
+        steps.append(st)
+        apply_step(mvs, wrappers, st)
+    # initial graphs, built through randomly chosen wrappers, interleaved
+    init = []
+    for g in range(ng):
+        nodes, links = gen_graph(rng, max_nodes, rels, clss, "fim" if fim and rng.random() < 0.6 else rng.choice(["sparse", "dense", "chain"]))
+        init.append([["n", None, i, c] for i, c in nodes] + [["l", None, a, r, b] for a, r, b in links])
+    idx = [0] * ng
+    live = [g for g in range(ng) if init[g]]
+    while live:
+        g = rng.choice(live)
+        st = list(init[g][idx[g]])
+        st[1] = rng.choice(wof[g])
+        push(st)
+        idx[g] += 1
+        if idx[g] == len(init[g]):
+            live.remove(g)
+
+    def foreign(g):
+        mine = set(mvs[g].ids())
+        return sorted({i for k, m in enumerate(mvs) if k != g for i in m.ids()} - mine)
+    for _ in range(rng.randint(4, 9)):
+        g = 0 if rng.random() < 0.7 else rng.randrange(ng)
+        ws = wof[g]
+        w = rng.choice(ws)
+        q = rand_query(mvs[g], rels, clss, rng, foreign(g))
+        push(["q", w, q])
+        k = rng.random()
+        if k < 0.15:
+            continue
+        # between the two askings: a mutation through another wrapper of the same graph (or the same one), possibly
+        # queries / mutations on other graphs of the store as well
+        if ng > 1 and rng.random() < 0.4:
+            og = rng.choice([x for x in range(ng) if x != g])
+            if rng.random() < 0.5:
+                push(["q", rng.choice(wof[og]), rand_query(mvs[og], rels, clss, rng, foreign(og))])
+            else:
+                push(rand_mutation(mvs[og], rng.choice(wof[og]), rels, clss, rng, fresh_id()))
+        others = [x for x in ws if x != w]
+        mw = rng.choice(others) if others and rng.random() < 0.75 else w
+        for _ in range(rng.choice([1, 1, 2])):
+            push(rand_mutation(mvs[g], mw, rels, clss, rng, fresh_id(), near=q[1]))
+        if q[1] in mvs[g].ids() or rng.random() < 0.3:
+            push(["q", w, q])
+        if rng.random() < 0.3:
+            push(["q", rng.choice(ws), rand_query(mvs[g], rels, clss, rng, foreign(g))])
+    case = {"kind": "history", "graphs": graphs, "wrappers": wrappers, "steps": steps, "alphabet": [rels, clss]}
+    if rng.random() < 0.25:
+        case["backend"] = "disjoint"
+    return case
+
+
+def corner_histories():
+    a2 = [ABS_REL[:2], ABS_CLS[:2]]
+    base = [["n", 0, "a", "A"], ["n", 0, "b", "B"], ["n", 0, "c", "A"], ["n", 0, "d", "B"],
+            ["l", 0, "a", "r", "b"], ["l", 0, "b", "r", "c"]]
+    q2 = ["two", "a", "r", "B", "r", "A"]
+    return [
+        # ask, add a link through the *other* wrapper, ask again through the first
+        {"kind": "history", "graphs": ["h0"], "wrappers": [0, 0], "alphabet": a2,
+         "steps": base + [["q", 0, q2], ["n", 1, "e", "A"], ["l", 1, "b", "r", "e"], ["q", 0, q2], ["q", 1, q2]]},
+        # the same through one wrapper, and a deletion through the other one
+        {"kind": "history", "graphs": ["h0"], "wrappers": [0, 0], "alphabet": a2,
+         "steps": base + [["q", 0, q2], ["l", 0, "b", "r", "d"], ["q", 0, q2], ["d", 1, "c"], ["q", 0, q2],
+                          ["q", 0, ["fn", "b", "r", "A"]], ["q", 0, ["sp", "a", "c", None]], ["q", 0, ["hops", "a", "b", ["b", "b"], 100]]]},
+        # a second graph with the same ids changes in between; answers on the first must not move
+        {"kind": "history", "graphs": ["h0", "h1"], "wrappers": [0, 0, 1], "alphabet": a2,
+         "steps": base + [["n", 2, "a", "A"], ["n", 2, "b", "B"], ["n", 2, "c", "A"], ["q", 0, q2], ["l", 2, "a", "r", "b"],
+                          ["l", 2, "b", "r", "c"], ["q", 1, q2], ["q", 2, q2], ["l", 1, "a", "s", "b"], ["q", 0, q2], ["q", 2, q2],
+                          ["q", 0, ["sp", "a", "c", "r"]], ["q", 2, ["sp", "a", "c", "r"]], ["q", 0, ["hops", "a", "c", ["b"], 100]]]},
+        # relation-restricted shortest path must not prune what later queries see (any backend)
+        {"kind": "history", "graphs": ["h0"], "wrappers": [0, 0], "alphabet": a2, "backend": "disjoint",
+         "steps": base + [["l", 0, "c", "s", "d"], ["q", 0, ["sp", "a", "d", None]], ["q", 0, ["sp", "a", "c", "r"]],
+                          ["q", 1, ["sp", "a", "d", None]], ["q", 0, ["fn", "c", "s", "B"]], ["l", 1, "a", "s", "d"], ["q", 0, ["sp", "a", "d", None]]]},
+    ]
+
+
+def run_history(case):
+    """Execute a history on the implementation.  Returns [(step index, graph idx, View now, query, answer through the wrapper,
+    answer through a brand-new wrapper object, mutated-since tag)]."""
+    from fim.graph.networkx_property_graph import NetworkXPropertyGraph, NetworkXGraphImporter, NetworkXGraphStorage
+    if case.get("backend") == "disjoint":
+        from fim.graph.networkx_property_graph_disjoint import (NetworkXPropertyGraphDisjoint as G, NetworkXGraphImporterDisjoint,
+                                                                  NetworkXGraphStorageDisjoint)
+        NetworkXGraphStorageDisjoint.storage_instance = None
+        imp = NetworkXGraphImporterDisjoint()
+    else:
+        G = NetworkXPropertyGraph
+        NetworkXGraphStorage.storage_instance = None
+        imp = NetworkXGraphImporter()
+    wrappers = case["wrappers"]
+    ws = [G(graph_id=case["graphs"][g], importer=imp) for g in wrappers]
+    mvs = [MView() for _ in case["graphs"]]
+    last_mut = {}            # graph idx -> wrapper index of the latest mutation since ... (per asking wrapper)
+    dirty = {}               # (asking wrapper) -> set of wrappers that mutated its graph since it last asked
+    out = []
+    for k, st in enumerate(case["steps"]):
+        w = st[1]
+        g = wrappers[w]
+        if st[0] == "q":
+            q = st[2]
+            rep = impl_query(ws[w], q)
+            fresh = impl_query(G(graph_id=case["graphs"][g], importer=imp), q)
+            since = dirty.get(w, set())
+            tag = ("no-mutation-since" if not since else "after-mutation-through-other-wrapper" if since - {w}
+                   else "after-own-mutation")
+            dirty[w] = set()
+            out.append((k, g, mvs[g].view(), q, rep, fresh, tag))
+        else:
+            try:
+                if st[0] == "n":
+                    ws[w].add_node(node_id=st[2], label=st[3], props={"Name": "name-" + st[2]})
+                elif st[0] == "l":
+                    ws[w].add_link(node_a=st[2], rel=st[3], node_b=st[4])
+                else:
+                    ws[w].delete_node(node_id=st[2])
+            except Exception as e:      # generated histories only contain valid mutations
+                out.append((k, g, mvs[g].view(), ["mutation"] + list(st), ["err", err_kind(e)], ["ok", None], "mutation-failed"))
+            apply_step(mvs, wrappers, st)
+            for x, gx in enumerate(wrappers):
+                if gx == g:
+                    dirty.setdefault(x, set()).add(w)
+    return out
+
+
+def hist_payload(case, k):
+    return {"kind": "history", "graphs": case["graphs"], "wrappers": case["wrappers"], "steps": case["steps"][:k + 1],
+            "alphabet": case["alphabet"], "backend": case.get("backend", "shared"), "query": case["steps"][k][-1] if case["steps"][k][0] == "q" else None}
+
+
+def same_answer(view, q, a, b):
+    if a[0] != b[0]:
+        return False
+    if a[0] == "err":
+        return a[1] == b[1]
+    if q[0] in ("sp", "hops"):
+        return len(a[1]) == len(b[1])        # which of several shortest paths comes back is not part of the contract
+    return canon_reply(q, a) == canon_reply(q, b)
+
+
+def judge_history(case, res, results=None):
+    """The oracle on one history: the fresh-wrapper answer is judged against the view as it is now (check_query), and the
+    answer through the long-lived wrapper must be the same answer."""
+    results = results if results is not None else run_history(case)
+    for k, g, view, q, rep, fresh, tag in results:
+        res.evaluations += 1
+        cc = hist_payload(case, k)
+        if tag == "mutation-failed":
+            res.violation("C06:history:mutation-raises:" + rep[1], "a valid add_node/add_link/delete_node of the history raised", cc, observed=rep)
+            continue
+        res.count("history:" + tag)
+        if nontrivial(view, q, rep) and tag != "no-mutation-since":
+            res.nontrivial.add(canon(["history", view.canon(), q, tag]))
+        check_query(view, None, q, fresh, res, cc=cc)
+        if not same_answer(view, q, rep, fresh):
+            res.violation("C06:history:%s:differs-from-fresh-wrapper:%s" % (q[0], tag),
+                          "the answer through a long-lived wrapper object differs from the answer of a fresh wrapper on the same store",
+                          cc, expected=fresh, observed=rep)
+    return results
+
+
+def run_histories(ctx, res, cases):
+    """Correspondence on histories: every answer through the long-lived wrapper against the model on the view as it is now."""
+    lines, meta = [], []
+    for case in cases:
+        results = run_history(case)
+        for k, g, view, q, rep, fresh, tag in results:
+            if tag == "mutation-failed":
+                res.disagreements.append({"case": hist_payload(case, k), "impl": rep, "model": "valid mutation", "why": "mutation-raises"})
+                continue
+            lines.append(json.dumps(["g", [list(x) for x in view.nodes], [list(e) for e in sorted_edges(view)], [lean_query(q), ["wf"]]]))
+            meta.append((case, k, view, q, rep, tag))
+    replies = []
+    for k in range(0, len(lines), 400):
+        replies += LeanDriver("C06").run(lines[k:k + 400])
+    for (case, k, view, q, rep, tag), rl in zip(meta, replies):
+        m = json.loads(rl)
+        res.evaluations += 1
+        res.count("history-op:" + q[0])
+        res.count("history:" + tag)
+        res.count("backend:" + case.get("backend", "shared"))
+        if m[0] != "ok" or m[1][-1] != ["ok", True]:
+            res.disagreements.append({"case": hist_payload(case, k), "impl": rep, "model": m, "why": "model-view"})
+            continue
+        if nontrivial(view, q, rep) and tag != "no-mutation-since":
+            res.nontrivial.add(canon(["history", view.canon(), q, tag]))
+        why = compare(view, q, rep, m[1][0])
+        if why:
+            res.disagreements.append({"case": hist_payload(case, k), "impl": rep, "model": m[1][0], "why": why + ":" + tag})
+    if meta:
+        case, k, view, q, rep, tag = next((x for x in meta if x[5] == "after-mutation-through-other-wrapper"), meta[-1])
+        res.sample({"history_steps": case["steps"][:k + 1][-6:], "wrappers": case["wrappers"], "answer": rep, "tag": tag})
+
+
+def sorted_edges(view):
+    out = []
+    for e, r in view.rel.items():
+        t = sorted(e)
+        out.append([t[0], r, t[-1]])
+    return out
+
+
 def oracle_cases(ctx, res, cases, budget, tag, hops_full=False):
     rng = ctx.sub_rng("oracle-queries/" + tag)
     for case in cases:
@@ -668,7 +1033,7 @@ def oracle_cases(ctx, res, cases, budget, tag, hops_full=False):
         t = case["target"]
         view = View(nodes[t], links[t])
         rels, clss = case["alphabet"]
-        qs = case.get("queries") or all_queries(view, rels, clss, rng, budget, hops_full)
+        qs = case.get("queries") or all_queries(view, rels, clss, rng, budget, hops_full, foreign_ids(nodes, t))
         gs = build_impl(case)
         vc = None
         for q in qs:
@@ -681,6 +1046,20 @@ def oracle_cases(ctx, res, cases, budget, tag, hops_full=False):
             check_query(view, case, q, rep, res)
 
 
+def corpus_histories():
+    d = os.path.join(CORPUS_DIR, ID)
+    out = []
+    if os.path.isdir(d):
+        for fn in sorted(os.listdir(d)):
+            if fn.endswith(".json"):
+                with open(os.path.join(d, fn)) as f:
+                    c = json.load(f)
+                c = c.get("case", c)
+                if c.get("kind") == "history":
+                    out.append(c)
+    return out
+
+
 def corpus_cases():
     d = os.path.join(CORPUS_DIR, ID)
     out = []
@@ -690,6 +1069,8 @@ def corpus_cases():
                 with open(os.path.join(d, fn)) as f:
                     c = json.load(f)
                 c = c.get("case", c)
+                if c.get("kind") == "history":
+                    continue
                 if "query" in c:
                     c = dict(c, queries=[c["query"]])
                 c.setdefault("alphabet", [ABS_REL[:2], ABS_CLS[:2]])
@@ -697,13 +1078,16 @@ def corpus_cases():
     return out
 
 
-def oracle(ctx, res, n=None, budget=None):
+def oracle(ctx, res, n=None, budget=None, hist_n=None):
     oracle_cases(ctx, res, corpus_cases(), None, "corpus")
     oracle_cases(ctx, res, corner_cases(), None, "corner", hops_full=True)
     rng = ctx.sub_rng("oracle")
     n = n or ctx.scale(250, 2500)
     cases = [gen_case(rng, rng.choice([2, 3, 4, 5, 6, 7])) for _ in range(n)]
     oracle_cases(ctx, res, cases, budget or ctx.scale(150, 250), "random")
+    hr = ctx.sub_rng("oracle-history")
+    for hc in corpus_histories() + corner_histories() + [gen_history(hr, hr.choice([2, 3, 4, 5, 6])) for _ in range(hist_n or ctx.scale(250, 3000))]:
+        judge_history(hc, res)
     for v in _STATE["judged"].violations:        # verdicts collected during the exhaustive correspondence pass
         res.violation(v["signature"], v["what"], v["case"], expected=v.get("expected"), observed=v.get("observed"))
     if ctx.thorough and not _STATE["exhaustive_judged"]:
@@ -717,11 +1101,20 @@ def search(ctx, res, broken):
     oracle_cases(ctx, res, corpus_cases(), None, "corpus")
     oracle_cases(ctx, res, exhaustive_cases(max_n=ctx.scale(3, 4), loops_n=ctx.scale(2, 3)), None, "exhaustive", hops_full=True)
     if not res.violations:
-        oracle(ctx, res, n=ctx.scale(1500, 8000), budget=300)
+        oracle(ctx, res, n=ctx.scale(1500, 8000), budget=300, hist_n=ctx.scale(2000, 10000))
 
 
 def replay(ctx, payload):
     case = dict(payload["case"])
+    if case.get("kind") == "history":
+        r = Result()
+        results = run_history(case)
+        judge_history(case, r, [x for x in results if x[0] == len(case["steps"]) - 1])
+        if results:
+            print("   last step %s -> through the wrapper %s, fresh wrapper %s" % (case["steps"][-1], results[-1][4], results[-1][5]))
+        for v in r.violations:
+            print("  ", v["signature"], v["what"])
+        return bool(r.violations)
     case.setdefault("alphabet", [ABS_REL[:2], ABS_CLS[:2]])
     nodes, links = case_views(case)
     t = case["target"]
